@@ -18,7 +18,7 @@ from pyvc.contracts import Contract, Loop
 from pyvc.interp import BUILTIN_EXC, PyRaise
 from pyvc.pack import Pack
 from pyvc.values import (
-    BOOL, INT, REAL, STR, Atom, ObjOf, OneOf, Opaque, OpaqueOf, Opt, PyDict, PyList, SExc, Sym, Unsupported, kind_of,
+    BOOL, INT, REAL, STR, Atom, ObjOf, OneOf, Opaque, OpaqueOf, Opt, PyDict, PyList, SExc, SObj, Sym, Unsupported, kind_of,
     to_term,
 )
 
@@ -761,6 +761,50 @@ def build():
             "hashed_once_and_afresh": "n_events('hashing.hash') == 1 and is_tag(ev_named('hashing.hash')[0][1], 'canonical-arguments') and ev_named('hashing.hash')[0][2] == (self.mmap_mode is not None)",
         },
     ))
+
+    # ------------------------------------------------------------------ MemorizedFunc.__init__: decorating never fails for an ignore list that filter_args accepts
+    # (C06: "every call that the plain function accepts is accepted by the wrapper" starts with the wrapper existing; the special entries '*' and
+    # '**' and the instance parameter of a bound method are valid ignore items: func_inspect.filter_args documents them)
+    def init_setup(interp, env):
+        interp.ctx.ghost["INIT_SELF"] = env.lookup("self")
+
+    def sb_factory(interp, args, kwargs):
+        interp.ctx.events.append(("store-factory", args[0], args[1], dict(kwargs)))
+        if args[1] is None:
+            return None
+        return Opaque("newstore", None)
+
+    p.models["newstore.store_cached_func_code"] = lambda i, r, a, k: i.ctx.events.append(("store_cached_func_code", a[0]))
+    p.models["functools.update_wrapper"] = lambda i, a, k: i.ctx.events.append(("update_wrapper", a[0], a[1]))
+    p.models["Logger.__init__"] = lambda i, r, a, k: None
+    p.models["inspect.isfunction"] = lambda i, a, k: True
+    p.models["inspect.ismethod"] = lambda i, a, k: False
+    p.models["pydoc.TextDoc"] = lambda i, a, k: Opaque("textdoc", None)
+    p.models["textdoc.document"] = lambda i, r, a, k: STR.fresh(i.ctx, "doc")
+    p.models["Str.replace"] = lambda i, r, a, k: STR.fresh(i.ctx, "replaced")
+    p.models["re.sub"] = lambda i, a, k: STR.fresh(i.ctx, "subbed")
+    # inspect.signature(func).parameters of `def func(x, *args, **kw)`: the names are x, args, kw - never '*' or '**'
+    p.models["inspect.signature"] = lambda i, a, k: Opaque("signature", None, parameters=Opaque("sigparams", None))
+    p.models["contains:sigparams"] = lambda i, c, item: item in ("x", "args", "kw")
+    init_glob = dict(glob)
+    init_glob["_build_func_identifier"] = lambda interp: _Fn(lambda i, a, k: STR.fresh(i.ctx, "func_id"))
+    init_glob["_store_backend_factory"] = lambda interp: _Fn(sb_factory)
+    init_glob["Logger"] = lambda interp: Opaque("LoggerClass", None, __init__=_Fn(lambda i, a, k: None))
+    for ig_name, ig in (("none", None), ("star", PyList(["*"])), ("double-star", PyList(["**"])), ("named", PyList(["x"])), ("all-three", PyList(["x", "*", "**"]))):
+        p.add(Contract(
+            MEM, "MemorizedFunc.__init__", variant="ignore-" + ig_name, props=["C06", "C02"], globals=init_glob, setup=init_setup,
+            params=dict(self=lambda i: SObj("MemorizedFunc", {}), func=OpaqueOf("userfunc", __doc__=STR), location=OneOf(None, OpaqueOf("storelocation")), backend="local",
+                        ignore=ig, mmap_mode=OneOf(None, "r"), compress=False, verbose=1, timestamp=OneOf(None, REAL), cache_validation_callback=OneOf(None, OpaqueOf("cvc"))),
+            ensures={
+                "wraps_this_function_with_these_options": "self.func is func and self.mmap_mode is mmap_mode and self.cache_validation_callback is cache_validation_callback",
+                "ignore_list_kept_as_given": ("len(self.ignore) == 0" if ig is None else "self.ignore is ignore"),
+                "no_code_information_yet": "self._func_code_info is None and self._func_code_id is None",
+            },
+            ensures_body={"store_built_from_the_given_location": "n_events('store-factory') == 1 and ev_named('store-factory')[0][2] is location",
+                          "function_directory_announced_iff_there_is_a_store": "n_events('store_cached_func_code') == (0 if location is None else 1)",
+                          "metadata_copied_before_the_wrapper_state_is_set": "n_events('update_wrapper') == 1 and ev_named('update_wrapper')[0][2] is func"},
+            # no exsures: decorating a function with a valid ignore list never raises
+        ))
 
     # ------------------------------------------------------------------ Memory.cache: what the wrapper is built from
     def new_wrapper(kind):
